@@ -133,6 +133,12 @@ def mode_env(mode, wd):
         env["OVNI_TMPDIR"] = os.path.join(wd, "tmp")
     elif mode == "tmp-disk":
         env["OVNI_TMPDIR"] = tempfile.mkdtemp(prefix="ovni-verif-c09-", dir=_CTX["disk"])
+    elif mode == "tmp-is-trace":
+        # OVNI_TMPDIR is another name of the trace directory (a symbolic link to it)
+        os.makedirs(os.path.join(wd, "trace"), exist_ok=True)
+        env["OVNI_TMPDIR"] = os.path.join(wd, "tmplink")
+        if not os.path.islink(env["OVNI_TMPDIR"]):
+            os.symlink(os.path.join(wd, "trace"), env["OVNI_TMPDIR"])
     return env
 
 
